@@ -1,5 +1,310 @@
-From Coq Require Import QArith ZArith Bool List.
-From CR Require Import Model.Occupancy.
-Theorem C04_stub : True.
-Proof. exact I. Qed.
-Print Assumptions C04_stub.
+(* Props/C04.v — property C04: obstacle occupancy is the shape placed at the state, for every time step.
+   Statements only; every proof is [exact <lemma of Proofs/Occupancy.v>].
+   Model: Model/Occupancy.v.  (i) dispatch: generic in the type S of states and R of regions, [tstep] = state.time_step,
+   [place s] = occupancy_shape_from_state(obstacle shape, s); all time steps are Z.  (ii) placement over Q with the
+   values of cos / sin / atan2 as oracle inputs.  (iii) enclosing rectangle for uncertain states: the algebraic part,
+   under explicit hypotheses on the oracle values ([orc_ok], [dev_ok]); named ..._partial where those hypotheses stand
+   for trigonometric facts that are not proved here (they are spelled out at the theorem). *)
+From Coq Require Import QArith Qabs ZArith Bool List Permutation.
+Import ListNotations.
+From CR Require Import Base.QMod Model.Interval Model.Transform Model.Shapes Model.Scene Proofs.Shapes
+  Model.Occupancy Proofs.Occupancy.
+
+(* ================================================================== (i) dispatch, for every integer t *)
+Section Dispatch.
+  Open Scope Z_scope.
+  Variables S R : Type.
+  Variable tstep : S -> Z.
+  Variable place : S -> R.
+  Notation occ_at := (occupancy_at_time S R tstep place).
+  Notation st_at := (state_at_time S R tstep).
+  Notation placed_at := (occ_of S R place).      (* occ_of t s = Occupancy(t, shape placed at s) *)
+  Notation consecutive := (consecutive S tstep). (* state i of the trajectory carries time step t_init + i (DESIGN 2.7) *)
+
+  (* THE statement: for static obstacles, dynamic obstacles without prediction and dynamic obstacles with a trajectory
+     prediction, the occupancy at t is the shape placed at the obstacle's state at t, and None iff it has no state at t *)
+  Theorem C04_occupancy_is_shape_at_state : forall o t, state_based S R tstep o = true ->
+    occ_at o t = option_map (placed_at t) (st_at o t).
+  Proof. exact (occupancy_is_placed_state S R tstep place). Qed.
+
+  (* which state: the initial state at its own time step, state_list[t - t_init] of the trajectory afterwards,
+     none before the initial time step / in a gap / beyond the last state *)
+  Theorem C04_dynamic_state_dispatch : forall i ty init tr t, consecutive tr = true ->
+    st_at (Dynamic i ty init (Some (PrTraj tr))) t =
+      if Z.eqb t (tstep init) then Some init
+      else if Z.ltb (tstep init) t && Z.leb (t_init tr) t && Z.ltb t (t_init tr + Z.of_nat (List.length (t_states tr)))
+           then nth_error (t_states tr) (Z.to_nat (t - t_init tr)) else None.
+  Proof. exact (dynamic_state_dispatch S R tstep). Qed.
+  (* the state returned for t is the one whose time step is t *)
+  Theorem C04_dynamic_state_has_time_t : forall i ty init pred t s, state_based S R tstep (Dynamic i ty init pred) = true ->
+    st_at (Dynamic i ty init pred) t = Some s -> tstep s = t.
+  Proof. exact (dynamic_state_time S R tstep place). Qed.
+  (* None exactly outside the time horizon *)
+  Theorem C04_dynamic_none_outside_horizon : forall i ty init tr t, consecutive tr = true ->
+    (occ_at (Dynamic i ty init (Some (PrTraj tr))) t = None <->
+     t < tstep init \/ (tstep init < t /\ (t < t_init tr \/ t_init tr + Z.of_nat (List.length (t_states tr)) <= t))).
+  Proof. exact (dynamic_occupancy_none_iff S R tstep place). Qed.
+  Theorem C04_dynamic_without_prediction : forall i ty init t,
+    occ_at (Dynamic i ty init None) t = if Z.eqb t (tstep init) then Some (placed_at t init) else None.
+  Proof. exact (dynamic_no_prediction S R tstep place). Qed.
+
+  (* Trajectory.state_at_time_step: defined exactly on [t_init, t_init + n); with consecutive time steps it returns
+     the state with time step t and None iff there is none *)
+  Theorem C04_trajectory_defined_iff : forall (tr : traj S) t,
+    (exists s, state_at_time_step S tr t = Some s) <-> t_init tr <= t < t_init tr + Z.of_nat (List.length (t_states tr)).
+  Proof. exact (state_at_time_step_defined S R tstep place). Qed.
+  Theorem C04_trajectory_state_with_time_t : forall tr t s, consecutive tr = true ->
+    (state_at_time_step S tr t = Some s <-> List.In s (t_states tr) /\ tstep s = t).
+  Proof. exact (state_at_time_step_consecutive S R tstep place). Qed.
+  Theorem C04_trajectory_none_iff_no_state : forall tr t, consecutive tr = true ->
+    (state_at_time_step S tr t = None <-> forall s, List.In s (t_states tr) -> tstep s <> t).
+  Proof. exact (state_at_time_step_consecutive_none S R tstep place). Qed.
+  (* TrajectoryPrediction.occupancy_at_time_step = the shape placed at that state *)
+  Theorem C04_trajectory_occupancy : forall tr t, consecutive tr = true ->
+    pred_occupancy_at S R tstep place (PrTraj tr) t = option_map (placed_at t) (state_at_time_step S tr t).
+  Proof. exact (traj_occupancy_is_placed_state S R tstep place). Qed.
+
+  (* stored occupancies (set-based predictions, phantom obstacles): the FIRST stored occupancy whose time step /
+     interval covers t; None iff none covers t *)
+  Theorem C04_stored_occupancy_first_covering : forall (l : list (occ R)) t o, lookup R l t = Some o <->
+    exists pre post, l = pre ++ o :: post /\ key_covers (o_time o) t /\ Forall (fun x => ~ key_covers (o_time x) t) pre.
+  Proof. exact (lookup_some R). Qed.
+  Theorem C04_stored_occupancy_none_iff : forall (l : list (occ R)) t,
+    lookup R l t = None <-> Forall (fun x => ~ key_covers (o_time x) t) l.
+  Proof. exact (lookup_none R). Qed.
+  Theorem C04_dynamic_set_based : forall i ty init l t,
+    occ_at (Dynamic i ty init (Some (PrSet l))) t =
+      (if Z.eqb t (tstep init) then Some (placed_at t init) else if Z.ltb (tstep init) t then lookup R l t else None) /\
+    st_at (Dynamic i ty init (Some (PrSet l))) t = (if Z.eqb t (tstep init) then Some init else None).
+  Proof. exact (dynamic_set_based S R tstep place). Qed.
+  Theorem C04_phantom : forall i p t,
+    occ_at (Phantom i p) t = match p with Some l => lookup R l t | None => None end /\ st_at (Phantom i p) t = None.
+  Proof. exact (phantom_dispatch S R tstep place). Qed.
+
+  (* static and environment obstacles: the same region at all times, never None *)
+  Theorem C04_static : forall i ty init t,
+    occ_at (Static i ty init) t = Some (placed_at t init) /\ st_at (Static i ty init) t = Some init.
+  Proof. exact (static_same_region S R tstep place). Qed.
+  Theorem C04_time_invariant_region : forall o t t', ob_role S R o = RStatic \/ ob_role S R o = REnvironment ->
+    option_map (@o_region R) (occ_at o t) = option_map (@o_region R) (occ_at o t') /\ occ_at o t <> None.
+  Proof. exact (time_invariant_region S R tstep place). Qed.
+
+  (* ---- scenario level: exactly what the per-obstacle answers imply *)
+  (* Scenario.obstacles lists every stored obstacle exactly once *)
+  Theorem C04_all_obstacles : forall obs : list (obstacle S R), Permutation (all_obstacles S R obs) obs.
+  Proof. exact (all_obstacles_perm S R). Qed.
+  (* occupancies_at_time_step (t >= 0): one entry for every obstacle of the requested role that has an occupancy at
+     t, namely that occupancy; nothing else *)
+  Theorem C04_occupancies_at_time_step : forall obs t r, 0 <= t ->
+    exists l, occupancies_at_time_step S R tstep place obs t r = Ok l /\
+              Permutation l (flat_map (occ_sel S R tstep place r t) obs) /\
+              (forall i oc, List.In (i, oc) l <->
+                 exists o, List.In o obs /\ ob_id S R o = i /\ role_ok S R r o = true /\ occ_at o t = Some oc).
+  Proof. exact (occupancies_at_time_step_spec S R tstep place). Qed.
+  Theorem C04_occupancies_negative_time : forall obs t r, t < 0 -> occupancies_at_time_step S R tstep place obs t r = Err.
+  Proof. exact (occupancies_at_time_step_negative S R tstep place). Qed.
+  (* obstacle_states_at_time_step (t >= 0): the states of exactly the static and dynamic obstacles that have one *)
+  Theorem C04_obstacle_states_at_time_step : forall obs t, 0 <= t ->
+    exists l, obstacle_states_at_time_step S R tstep obs t = Ok l /\
+      (forall i s, List.In (i, s) l <->
+         exists o, List.In o obs /\ ob_id S R o = i /\ (ob_role S R o = RStatic \/ ob_role S R o = RDynamic) /\
+                   st_at o t = Some s).
+  Proof. exact (obstacle_states_at_time_step_spec S R tstep). Qed.
+  (* obstacles_by_role_and_type: every obstacle of the role and type, once; a phantom obstacle has no type *)
+  Theorem C04_obstacles_by_role_and_type : forall obs r ty,
+    Permutation (obstacles_by_role_and_type S R obs r ty) (flat_map (type_sel S R r ty) obs) /\
+    (forall i, List.In i (obstacles_by_role_and_type S R obs r ty) <->
+       exists o, List.In o obs /\ ob_id S R o = i /\ role_ok S R r o = true /\ type_ok S R ty o = true).
+  Proof. exact (obstacles_by_role_and_type_spec S R). Qed.
+  (* obstacles_by_position_intervals: the obstacles of the requested roles whose centre (of the occupancy at t /
+     the initial position / the stored shape) lies in the box; regions without a centre always count *)
+  Theorem C04_obstacles_by_position_intervals :
+    forall (rcenter : R -> option (Q * Q)) (spos : S -> option (Q * Q)) (inside : Q * Q -> bool) obs roles t i,
+    List.In i (by_position S R tstep place rcenter spos inside obs roles t) <->
+    exists o, List.In o obs /\ ob_id S R o = i /\ existsb (role_eqb (ob_role S R o)) roles = true /\
+              pos_sel S R tstep place rcenter spos inside t o = true.
+  Proof. exact (by_position_spec S R tstep place). Qed.
+End Dispatch.
+
+(* ================================================================== (ii) placement at an exact state *)
+Open Scope Q_scope.
+
+(* rotate_translate_local(pos, th) places every shape kind, member-wise through shape groups: rectangle: centre + pos,
+   orientation + th modulo tau, in [-tau, tau]; circle: centre + pos; polygon: every vertex rotated about the
+   centroid by th and shifted by pos ([placed] is that relation, Proofs/Occupancy.v) *)
+Theorem C04_placement : forall tau, 0 < tau -> forall fuel pos th c s sh sh',
+  rotate_translate_local tau fuel pos th c s sh = Ok sh' -> placed tau pos th c s sh sh'.
+Proof. exact rtl_placed. Qed.
+(* ... and raises only for an invalid angle / an invalid stored rectangle orientation *)
+Theorem C04_placement_total : forall tau, 0 < tau -> forall fuel pos th c s, (3 <= fuel)%nat ->
+  valid_orientation tau th = true -> forall sh, valid_shape tau sh = true ->
+  exists sh', rotate_translate_local tau fuel pos th c s sh = Ok sh'.
+Proof. exact rtl_total. Qed.
+(* a placed vertex in coordinates: g + R(th)(v - g) + pos; with the reference point at the origin: R(th) v + pos *)
+Theorem C04_placed_vertex : forall pos c s g v,
+  px (place_vertex g pos c s v) == px g + (c * (px v - px g) - s * (py v - py g)) + px pos /\
+  py (place_vertex g pos c s v) == py g + (s * (px v - px g) + c * (py v - py g)) + py pos.
+Proof. exact place_vertex_coords. Qed.
+Theorem C04_placed_vertex_origin : forall pos c s g v, pt_eq g (0, 0) ->
+  pt_eq (place_vertex g pos c s v) (padd (rot c s v) pos).
+Proof. exact place_vertex_origin. Qed.
+(* rectangles: the stored corners are centre + R(orientation) corner, and the corners of the placed rectangle are the
+   placed corners (rotation about the centre), given the addition theorem for the oracle values of orientation + th *)
+Theorem C04_rectangle_vertices : forall l w ctr o c s, exact_at_zero o c s ->
+  Forall2 pt_eq (rect_vertices l w ctr o c s) (map (fun k => padd ctr (rot c s k)) (rect_corners l w)).
+Proof. exact rect_vertices_closed. Qed.
+Theorem C04_rectangle_vertices_placed : forall pos c s l w ctr o co so o' c' s',
+  exact_at_zero o co so -> exact_at_zero o' c' s' -> c' == co * c - so * s -> s' == so * c + co * s ->
+  Forall2 pt_eq (rect_vertices l w (padd ctr pos) o' c' s') (map (place_vertex ctr pos c s) (rect_vertices l w ctr o co so)).
+Proof. exact rect_vertices_placed. Qed.
+(* the orientation used: the stored one; atan2(velocity_y, velocity) for point-mass states (the arguments the oracle
+   receives are fixed by the statement); an exact state is placed with rotate_translate_local at (position, heading) *)
+Theorem C04_heading_stored : forall atan2f st o, s_ori st = Some o -> heading atan2f st = Some o.
+Proof. exact heading_stored. Qed.
+Theorem C04_heading_point_mass : forall atan2f st vx vy, s_ori st = None -> s_vec st = Some (vx, vy) ->
+  heading atan2f st = Some (OExact (atan2f vy vx)).
+Proof. exact heading_point_mass. Qed.
+Theorem C04_exact_state_placement : forall tau fuel cosf sinf atan2f sh st p th,
+  s_pos st = Some (PPoint p) -> heading atan2f st = Some (OExact th) ->
+  occupancy_exact tau fuel cosf sinf atan2f sh st = rotate_translate_local tau fuel p th (cosf th) (sinf th) sh /\
+  is_uncertain atan2f st = false.
+Proof. exact occupancy_exact_eq. Qed.
+
+(* ================================================================== (iii) enclosure for uncertain states *)
+(* PARTIAL.  Proved: for a polygon / rectangle with bounding box b (of the unplaced shape) and centre of rotation ref,
+   every point u of b placed at ANY admissible position p and ANY admissible orientation psi_d + delta lies in the
+   returned rectangle.  Admissible position ([pos_admissible]): the exact point; for a Rectangle / Polygon region every
+   point that, rotated by -psi_d about the region's centre, lies in the measured bounds of the rotated region; for a
+   Circle region the disc.  The orientation enters through (cdl, sdl) = (cos delta, sin delta), (cos_d, sin_d) =
+   (cos psi_d, sin psi_d); the placed point uses the addition theorem for cos / sin (psi_d + delta).
+   NOT proved (hypotheses [orc_ok], [dev_ok] on the oracle values — real trigonometry, DESIGN 2.2): unit circle
+   identities; |off_v| = sqrt(.); for |delta| <= delta_psi: l|cos delta| + w|sin delta| <= l cos(delta_l) + w sin(delta_l)
+   with delta_l = min(delta_psi, arctan(w/l)) (and with l, w swapped) and sin^2(delta/2) <= sin^2(delta_psi/2).
+   C04_dev_len_saturated / _unsaturated below reduce the monotonicity fact to the subtraction theorem and
+   Cauchy-Schwarz.  Also not proved: that a point of a polygonal region rotated by -psi_d lies in shapely's bounds of
+   the rotated region (bounds = min / max over the vertices is proved for the model's [bbox]: C04_bbox_contains). *)
+Theorem C04_enclosure_encloses_partial : forall orc b ref pm om L W C psi,
+  enclosure1 (box_len b) (box_wid b) ref (padd (box_mid b) (pneg ref)) pm om orc = Ok (Rect L W C psi) ->
+  orc_ok (padd (box_mid b) (pneg ref)) orc ->
+  forall u p cdl sdl,
+    in_box b u -> pos_admissible pm (cos_d orc) (sin_d orc) p -> dev_ok (box_len b) (box_wid b) orc cdl sdl ->
+    in_rect L W C (cos_d orc) (sin_d orc)
+      (place_vertex ref p (cos_d orc * cdl - sin_d orc * sdl) (sin_d orc * cdl + cos_d orc * sdl) u).
+Proof. exact enclosure1_encloses. Qed.
+(* circles: every point of the disc placed at any admissible position (no hypothesis on the orientation) *)
+Theorem C04_enclosure_encloses_circle_partial : forall orc r ctr0 pm om L W C psi,
+  enclosure1 (2 * r) (2 * r) ctr0 (0, 0) pm om orc = Ok (Rect L W C psi) ->
+  orc_ok (0, 0) orc -> 0 <= r ->
+  forall p e, pos_admissible pm (cos_d orc) (sin_d orc) p -> px e * px e + py e * py e <= r * r ->
+    in_rect L W C (cos_d orc) (sin_d orc) (padd (padd ctr0 p) e).
+Proof. exact enclosure1_encloses_circle. Qed.
+(* with the bounds computed from the polygon's own vertices: every placed vertex is enclosed (and, the rectangle
+   being convex, every point of the polygon) *)
+Theorem C04_enclosure_encloses_polygon_partial : forall orc vs b pm om L W C psi,
+  bbox vs = Some b ->
+  enclosure (SMBox b (centroid vs)) pm om orc = Ok (Rect L W C psi) ->
+  orc_ok (padd (box_mid b) (pneg (centroid vs))) orc ->
+  forall v p cdl sdl,
+    List.In v vs -> pos_admissible pm (cos_d orc) (sin_d orc) p -> dev_ok (box_len b) (box_wid b) orc cdl sdl ->
+    in_rect L W C (cos_d orc) (sin_d orc)
+      (place_vertex (centroid vs) p (cos_d orc * cdl - sin_d orc * sdl) (sin_d orc * cdl + cos_d orc * sdl) v).
+Proof. exact enclosure_encloses_polygon. Qed.
+Theorem C04_enclosure_encloses_rectangle_partial : forall orc l w ctr o co so b pm om L W C psi,
+  bbox (rect_vertices l w ctr o co so) = Some b ->
+  enclosure (SMBox b ctr) pm om orc = Ok (Rect L W C psi) ->
+  orc_ok (padd (box_mid b) (pneg ctr)) orc ->
+  forall v p cdl sdl,
+    List.In v (rect_vertices l w ctr o co so) -> pos_admissible pm (cos_d orc) (sin_d orc) p ->
+    dev_ok (box_len b) (box_wid b) orc cdl sdl ->
+    in_rect L W C (cos_d orc) (sin_d orc)
+      (place_vertex ctr p (cos_d orc * cdl - sin_d orc * sdl) (sin_d orc * cdl + cos_d orc * sdl) v).
+Proof. exact enclosure_encloses_rectangle. Qed.
+Theorem C04_bbox_contains : forall vs b v, bbox vs = Some b -> List.In v vs -> in_box b v.
+Proof. exact bbox_contains. Qed.
+Theorem C04_in_rect_convex : forall l w ctr c s x y t, 0 <= t -> t <= 1 ->
+  in_rect l w ctr c s x -> in_rect l w ctr c s y ->
+  in_rect l w ctr c s ((1 - t) * px x + t * px y, (1 - t) * py x + t * py y).
+Proof. exact in_rect_convex. Qed.
+(* the formula returns a rectangle with the reference orientation, and raises only for a ShapeGroup as position region;
+   shape groups are handled member by member *)
+Theorem C04_enclosure_result : forall l_v w_v ref off pm om orc,
+  (pm = PMGroup /\ enclosure1 l_v w_v ref off pm om orc = Err) \/
+  (exists L W C, enclosure1 l_v w_v ref off pm om orc = Ok (Rect L W C (psi_of om))).
+Proof. exact enclosure1_shape. Qed.
+Theorem C04_enclosure_group_memberwise : forall ms pm om orc sh,
+  enclosure (SMGroup ms) pm om orc = Ok sh ->
+  exists shs, sh = Group shs /\ Forall2 (fun mo y => enclosure (fst mo) pm om (snd mo) = Ok y) ms shs.
+Proof. exact enclosure_group_memberwise. Qed.
+(* the part of [dev_ok] that is algebra: saturated case (delta_psi >= arctan(w/l); cos / sin of arctan(w/l) are l/d, w/d)
+   for every unit vector; unsaturated case from the subtraction theorem *)
+Theorem C04_dev_len_saturated : forall l w d cl sl a b,
+  0 <= l -> 0 <= w -> 0 < d -> d * d == l * l + w * w -> cl * d == l -> sl * d == w ->
+  a * a + b * b == 1 -> l * Qabs a + w * Qabs b <= l * cl + w * sl.
+Proof. exact dev_len_saturated. Qed.
+Theorem C04_dev_len_unsaturated : forall l w c2 s2 ce se a b,
+  ce <= 1 -> 0 <= se -> 0 <= l * c2 + w * s2 -> 0 <= w * c2 - l * s2 ->
+  a == c2 * ce + s2 * se -> b == s2 * ce - c2 * se -> l * a + w * b <= l * c2 + w * s2.
+Proof. exact dev_len_unsaturated. Qed.
+
+(* ================================================================== non-vacuity *)
+Theorem C04_dispatch_nonvacuous :
+  let o := Dynamic (R := Z) 7 0 (2, 20)%Z (Some (PrTraj {| t_init := 4; t_states := [(4, 40); (5, 50); (6, 60)]%Z |})) in
+  state_based (Z * Z) Z fst o = true /\
+  map (fun t => option_map (@o_region Z) (occupancy_at_time (Z * Z) Z fst snd o t)) [1; 2; 3; 4; 5; 6; 7]%Z
+    = [None; Some 20; None; Some 40; Some 50; Some 60; None]%Z /\
+  map (state_at_time (Z * Z) Z fst o) [1; 2; 3; 4; 6; 7]%Z
+    = [None; Some (2, 20); None; Some (4, 40); Some (6, 60); None]%Z.
+Proof. exact dispatch_nonvacuous. Qed.
+Theorem C04_enclosure_nonvacuous :
+  exists L W C psi,
+    enclosure1 (box_len ex_box) (box_wid ex_box) (0, 0) (padd (box_mid ex_box) (pneg (0, 0)))
+               (PMBox (1, 2) {| b_minx := 0; b_miny := 1; b_maxx := 2; b_maxy := 3 |})
+               (OMItv {| lo := 0; hi := 1 |}) ex_orc = Ok (Rect L W C psi) /\
+    orc_ok (padd (box_mid ex_box) (pneg (0, 0))) ex_orc /\
+    in_box ex_box (6, 8) /\
+    pos_admissible (PMBox (1, 2) {| b_minx := 0; b_miny := 1; b_maxx := 2; b_maxy := 3 |}) (3 # 5) (4 # 5) (1, 2) /\
+    dev_ok (box_len ex_box) (box_wid ex_box) ex_orc (4 # 5) (- (3 # 5)) /\ ~ (4 # 5) == 1.
+Proof. exact enclosure_nonvacuous. Qed.
+
+Print Assumptions C04_occupancy_is_shape_at_state.
+Print Assumptions C04_dynamic_state_dispatch.
+Print Assumptions C04_dynamic_state_has_time_t.
+Print Assumptions C04_dynamic_none_outside_horizon.
+Print Assumptions C04_dynamic_without_prediction.
+Print Assumptions C04_trajectory_defined_iff.
+Print Assumptions C04_trajectory_state_with_time_t.
+Print Assumptions C04_trajectory_none_iff_no_state.
+Print Assumptions C04_trajectory_occupancy.
+Print Assumptions C04_stored_occupancy_first_covering.
+Print Assumptions C04_stored_occupancy_none_iff.
+Print Assumptions C04_dynamic_set_based.
+Print Assumptions C04_phantom.
+Print Assumptions C04_static.
+Print Assumptions C04_time_invariant_region.
+Print Assumptions C04_all_obstacles.
+Print Assumptions C04_occupancies_at_time_step.
+Print Assumptions C04_occupancies_negative_time.
+Print Assumptions C04_obstacle_states_at_time_step.
+Print Assumptions C04_obstacles_by_role_and_type.
+Print Assumptions C04_obstacles_by_position_intervals.
+Print Assumptions C04_placement.
+Print Assumptions C04_placement_total.
+Print Assumptions C04_placed_vertex.
+Print Assumptions C04_placed_vertex_origin.
+Print Assumptions C04_rectangle_vertices.
+Print Assumptions C04_rectangle_vertices_placed.
+Print Assumptions C04_heading_stored.
+Print Assumptions C04_heading_point_mass.
+Print Assumptions C04_exact_state_placement.
+Print Assumptions C04_enclosure_encloses_partial.
+Print Assumptions C04_enclosure_encloses_circle_partial.
+Print Assumptions C04_enclosure_encloses_polygon_partial.
+Print Assumptions C04_enclosure_encloses_rectangle_partial.
+Print Assumptions C04_bbox_contains.
+Print Assumptions C04_in_rect_convex.
+Print Assumptions C04_enclosure_result.
+Print Assumptions C04_enclosure_group_memberwise.
+Print Assumptions C04_dev_len_saturated.
+Print Assumptions C04_dev_len_unsaturated.
+Print Assumptions C04_dispatch_nonvacuous.
+Print Assumptions C04_enclosure_nonvacuous.
